@@ -392,6 +392,7 @@ type world struct {
 	permv  bool
 	anoms  []string
 	ncells []int
+	enc    *kvcache.EncoderCache // kind "encwrap": layer 0 is the cross-attention layer stored in the encoder cache
 }
 
 func (w *world) anomaly(s string) {
@@ -405,6 +406,9 @@ func (w *world) kv(si int, l int) (*tensor, *tensor) {
 	// allocation order: for every (cache, layer) first K then V, in the order of first Put; Put order in the
 	// harness is layer 0, 1, ... and each layer belongs to exactly one cache
 	idx := 2 * l
+	if w.enc != nil {
+		idx = 2 * (l - 1)
+	}
 	if idx+1 >= len(w.b.zeros) {
 		return nil, nil
 	}
@@ -493,6 +497,9 @@ func runCase(c map[string]any) any {
 	cfg := c["cfg"].(map[string]any)
 	window := num(cfg["window"])
 	kind, _ := cfg["kind"].(string)
+	if kind == "enc" {
+		return runEnc(c)
+	}
 	canShift, _ := cfg["shift"].(bool)
 	permv, _ := cfg["permv"].(bool)
 	maskf16, _ := cfg["maskf16"].(bool)
@@ -551,8 +558,15 @@ func runCase(c map[string]any) any {
 		return kvcache.NewCausalCache(shift)
 	}
 	switch kind {
+	case "encwrap":
+		nlayers = 2
+		w.enc = kvcache.NewEncoderCache()
+		s1 := &sub{c: mk(0), layers: []int{1}}
+		w.subs = []*sub{s1}
+		w.wrap = kvcache.NewWrapperCache(w.enc, s1.c)
+		w.top = w.wrap
 	case "wrapper":
-		s0, s1 := &sub{c: mk(window)}, &sub{c: mk(0)}
+		s0, s1 := &sub{c: mk(window)}, &sub{c: mk(num(cfg["window2"]))}
 		for l := 0; l < nlayers; l++ {
 			if l%2 == 0 {
 				s0.layers = append(s0.layers, l)
@@ -599,7 +613,12 @@ func runCase(c map[string]any) any {
 					pos[i] = int32(p)
 				}
 				ctx := b.NewContext()
-				err := w.top.StartForward(ctx, input.Batch{Positions: pos, Sequences: seqs}, false)
+				batch := input.Batch{Positions: pos, Sequences: seqs}
+				img, hasImg := op["img"].(map[string]any)
+				if hasImg {
+					batch.Multimodal = []input.MultimodalIndex{{Index: num(img["at"])}}
+				}
+				err := w.top.StartForward(ctx, batch, false)
 				if err != nil {
 					if errors.Is(err, kvcache.ErrKvCacheFull) {
 						st["err"] = "full"
@@ -617,12 +636,23 @@ func runCase(c map[string]any) any {
 					if w.wrap != nil {
 						w.wrap.SetLayerType(layerType(l))
 					}
+					if w.enc != nil && l == 0 {
+						// cross-attention layer: K/V of the image are stored only when the batch carries the image
+						if hasImg {
+							k, v := mkImg(0, num(img["id"]))
+							w.top.Put(ctx, k, v)
+						}
+						continue
+					}
 					k, v := mkKV(l, toks, pos)
 					w.top.Put(ctx, k, v)
 				}
 				type got struct{ k, v, m *tensor }
 				gots := make([]got, nlayers)
 				for l := 0; l < nlayers; l++ {
+					if w.enc != nil && l == 0 {
+						continue
+					}
 					w.top.SetLayer(l)
 					if w.wrap != nil {
 						w.wrap.SetLayerType(layerType(l))
@@ -741,6 +771,10 @@ func runCase(c map[string]any) any {
 			return st
 		}
 		st["caches"] = w.snap()
+		if w.enc != nil {
+			st["enc"] = encState(w.enc)
+			st["get"] = encGet(w.top, func() { w.wrap.SetLayerType(0) }, []int{0})
+		}
 		steps = append(steps, st)
 		return st
 	}
